@@ -25,11 +25,11 @@ import (
 //
 // Stakes are laid out so that session membership is decidable without re-implementing selection:
 //
-//	self          [0001, 0003]   K "both" nodes [0001, 0021]   one "other" node [0021]   SessionNodeCount = K+1
+//	self    [0001, 0003, 0040]   K "both" nodes [0001, 0021, 0040, 0003]   one "other" node [0021]   SessionNodeCount = K+1
 //	chain 0001: stakers = self + K          = SessionNodeCount -> self is in every 0001 session
 //	chain 0021: stakers = K + other (no self) = SessionNodeCount -> a session exists and self is NOT in it
-//	chain 0003: hosted and staked by self, the application is not staked for it
-//	chain 0040: the application is staked for it, self does not host it
+//	chain 0003: hosted by self, staked by self and the K peers (self is in the session), the application is not staked for it
+//	chain 0040: application staked, self and the K peers staked (self is in the session), but self does not host it
 type relayWorld struct {
 	spec     chain.Spec
 	n        *chain.Node
@@ -63,12 +63,12 @@ func newRelayWorld(rt *rapid.T, kBoth int, bps int64, app0Stake int64, stopAt in
 	}
 	w.self = chain.Key("self")
 	fund(w.self)
-	s.Nodes = append(s.Nodes, chain.NodeSpec{Key: w.self, Stake: chain.StakeUnit, Chains: []string{"0001", "0003"}})
+	s.Nodes = append(s.Nodes, chain.NodeSpec{Key: w.self, Stake: chain.StakeUnit, Chains: []string{"0001", "0003", "0040"}})
 	for i := 0; i < kBoth; i++ {
 		k := chain.Key(fmt.Sprintf("both%d", i))
 		fund(k)
 		w.others = append(w.others, k)
-		s.Nodes = append(s.Nodes, chain.NodeSpec{Key: k, Stake: chain.StakeUnit, Chains: []string{"0001", "0021"}})
+		s.Nodes = append(s.Nodes, chain.NodeSpec{Key: k, Stake: chain.StakeUnit, Chains: []string{"0001", "0021", "0040", "0003"}})
 	}
 	other := chain.Key("other")
 	fund(other)
